@@ -151,42 +151,53 @@ func TestC05(t *testing.T) {
 			[]string{"p", "q", "p", "p", "q"}},
 		{"counter a\n/^s/ {\n  stop\n}\n/./ {\n  a++\n}\n",
 			[]string{"s", "t", "s", "s", "t"}},
+		// a line on which an instruction panics inside the VM (an accepted
+		// ill-typed shape, finding C04-d), then ordinary lines
+		{"histogram h buckets 1, 2\ncounter n\n/^p/ {\n  h++\n}\n/./ {\n  n++\n}\n",
+			[]string{"x", "p", "x", "p", "p", "x", "x"}},
+		// the same failing line twice, then a good one (error logging on below)
+		{"counter n\ngauge g\n/^v (\\S+)/ {\n  g = int($1)\n  n++\n}\n",
+			[]string{"v 1", "v zz", "v zz", "v 2", "v zz", "v 3"}},
+		{"counter n\n/^t (\\S+)/ {\n  strptime($1, \"2006-01-02\")\n  n++\n}\n",
+			[]string{"t 2021-01-02", "t bad", "t bad", "t 2021-01-03", "t bad"}},
 	} {
-		a, err := mt.Load(mt.UniqueName("c05pa"), pc.src, mt.VMOpts{})
-		if err != nil {
-			r.Violation("pinned-shape-rejected", witness{Program: pc.src, What: err.Error()})
-			continue
-		}
-		for k, probe := range pc.lines {
-			b, err := mt.Load(mt.UniqueName("c05pb"), pc.src, mt.VMOpts{})
+		for _, logErrors := range []bool{false, true} {
+			a, err := mt.Load(mt.UniqueName("c05pa"), pc.src, mt.VMOpts{LogErrors: logErrors})
 			if err != nil {
-				break
+				r.Violation("pinned-shape-rejected", witness{Program: pc.src, What: err.Error()})
+				continue
 			}
-			if err := copyState(b.Obj.Metrics, a.Obj.Metrics); err != nil {
+			for k, probe := range pc.lines {
+				b, err := mt.Load(mt.UniqueName("c05pb"), pc.src, mt.VMOpts{LogErrors: logErrors})
+				if err != nil {
+					break
+				}
+				if err := copyState(b.Obj.Metrics, a.Obj.Metrics); err != nil {
+					b.Close()
+					r.Violation("state-transfer", witness{Program: pc.src, What: err.Error()})
+					break
+				}
+				t0 := time.Now().UnixNano()
+				ea, eb := a.Line("logfile", probe), b.Line("logfile", probe)
+				t1 := time.Now().UnixNano()
+				w := witness{Program: pc.src, History: pc.lines[:k], Probe: probe}
+				r.Eval(1)
+				r.Count("pinned_shape_probes", 1)
+				d := diff(rows(a.Obj.Metrics), rows(b.Obj.Metrics), t0, t1)
 				b.Close()
-				r.Violation("state-transfer", witness{Program: pc.src, What: err.Error()})
-				break
+				if ea != eb {
+					w.What = fmt.Sprintf("runtime error raised with history=%v, in a fresh copy=%v", ea, eb)
+					r.Violation("error-bit", w)
+					break
+				}
+				if d != "" {
+					w.What = d
+					r.Violation("store-differs", w)
+					break
+				}
 			}
-			t0 := time.Now().UnixNano()
-			ea, eb := a.Line("logfile", probe), b.Line("logfile", probe)
-			t1 := time.Now().UnixNano()
-			w := witness{Program: pc.src, History: pc.lines[:k], Probe: probe}
-			r.Eval(1)
-			r.Count("pinned_shape_probes", 1)
-			d := diff(rows(a.Obj.Metrics), rows(b.Obj.Metrics), t0, t1)
-			b.Close()
-			if ea != eb {
-				w.What = fmt.Sprintf("runtime error raised with history=%v, in a fresh copy=%v", ea, eb)
-				r.Violation("error-bit", w)
-				break
-			}
-			if d != "" {
-				w.What = d
-				r.Violation("store-differs", w)
-				break
-			}
+			a.Close()
 		}
-		a.Close()
 	}
 	n := ev.Pick(500, 15000)
 	nlines := ev.Pick(20, 26)
@@ -216,14 +227,15 @@ func TestC05(t *testing.T) {
 				lines[k] = ev.PickOne(g, pool)
 			}
 		}
-		a, err := mt.Load(mt.UniqueName("c05a"), src, mt.VMOpts{})
+		vo := mt.VMOpts{LogErrors: i%3 == 2}
+		a, err := mt.Load(mt.UniqueName("c05a"), src, vo)
 		if err != nil {
 			r.Count("compile_rejected", 1)
 			return
 		}
 		defer a.Close()
 		for k, probe := range lines {
-			b, err := mt.Load(mt.UniqueName("c05b"), src, mt.VMOpts{})
+			b, err := mt.Load(mt.UniqueName("c05b"), src, vo)
 			if err != nil {
 				r.Violation("second-compile-rejected", witness{Program: src, What: err.Error()})
 				return
